@@ -166,7 +166,9 @@ def run_scenario(sc: dict[str, Any]) -> dict[str, Any]:
         try:
             sim.run(sc['end'])
             watching = {o: any(w.res.plural == PLURAL and w.session.owner == o for w in sim.srv.watches) for o in OPS}
-            sim.rec('env.quiet', watching=watching)
+            # how many objects there are for the daemons of an active operator to live on (-1: no daemons that stay, or threads that cannot be told)
+            objs = (sum(1 for (rk, _ns, _nm) in sim.srv.objs if rk == sim.things.key) if sc.get('daemon') and sc.get('dmode') != 'syncbusy' else -1)
+            sim.rec('env.quiet', watching=watching, objs=objs)
             for o, op in ops.items():
                 if not op.done and not op.killed and not op.stop_flag.is_set():
                     op.stop()
@@ -262,7 +264,7 @@ def convert(raw: list[dict[str, Any]], sc: dict[str, Any]) -> list[dict[str, Any
             out.append({'ev': 'inv', 't': t, 'o': e['loop'], 'ct': commit_t.get(e.get('rv') or -1, 0), 'name': e.get('name')})
         elif ev == 'd.start': out.append({'ev': 'dstart', 't': t, 'o': e['loop'], 'name': e.get('name') or ''})
         elif ev == 'd.exit': out.append({'ev': 'dexit', 't': t, 'o': e['loop'], 'name': e.get('name') or ''})
-        elif ev == 'env.quiet': out.append({'ev': 'quiet', 't': t, 'watching': e['watching']})
+        elif ev == 'env.quiet': out.append({'ev': 'quiet', 't': t, 'watching': e['watching'], 'objs': e.get('objs', -1)})
     # a null-only PATCH that no evaluation accounts for is shown to the specification as the write it is
     for e in out:
         if e['ev'] == '_clean':
